@@ -229,6 +229,8 @@ struct Conc {
     conns: std::collections::HashMap<u64, Conn>,
     /// after the first bounded wait that ran out the verdict is decided: do not spend the full wait again
     wait: Duration,
+    /// bounded waits that ran out; after 10 of them the rest of the script is not executed
+    ran_out: u32,
 }
 impl Conc {
     async fn open(&mut self, k: u64) {
@@ -238,7 +240,10 @@ impl Conc {
                 std::io::ErrorKind::NotFound | std::io::ErrorKind::ConnectionRefused => Conn::Refused,
                 _ => Conn::Failed,
             },
-            Err(_) => Conn::Failed,
+            Err(_) => {
+                self.ran_out += 1;
+                Conn::Failed
+            }
         };
         self.conns.insert(k, c);
     }
@@ -247,7 +252,11 @@ impl Conc {
         if let Some(Conn::Open(c, _)) = self.conns.get_mut(&k) {
             match tokio::time::timeout(wait, c.write_all(b)).await {
                 Ok(Ok(())) => {}
-                _ => {
+                Ok(Err(_)) => {
+                    self.conns.insert(k, Conn::Failed);
+                }
+                Err(_) => {
+                    self.ran_out += 1;
                     self.conns.insert(k, Conn::Failed);
                 }
             }
@@ -282,6 +291,7 @@ impl Conc {
                     Err(_) => {
                         if pending == 3 {
                             self.wait = Duration::from_millis(400);
+                            self.ran_out += 1;
                         }
                         if buf.is_empty() {
                             X::L(vec![X::N(pending.into())])
@@ -327,9 +337,12 @@ fn conc(x: &X) -> X {
             Some(s) => s,
             None => return X::L(vec![X::N(93)]),
         };
-        let mut c = Conc { server, conns: Default::default(), wait: Duration::from_millis(wait_ms()) };
+        let mut c = Conc { server, conns: Default::default(), wait: Duration::from_millis(wait_ms()), ran_out: 0 };
         let mut out = Vec::new();
         for (op, k, b) in script {
+            if c.ran_out >= 10 {
+                break;
+            }
             match op {
                 0 => c.open(k).await,
                 1 => c.write(k, &b).await,
@@ -365,7 +378,14 @@ fn conc(x: &X) -> X {
             }
         }
         c.conns.clear();
-        c.server.stop().await;
+        if c.ran_out > 0 {
+            // the socket does not answer: do not ask it to shut down
+            c.server.manager.shutdown();
+            wait_listening(&c.server.path, false, Duration::from_secs(2)).await;
+            let _ = std::fs::remove_dir_all(&c.server.dir);
+        } else {
+            c.server.stop().await;
+        }
         X::L(out)
     })
 }
